@@ -211,14 +211,21 @@ void sqf::fileio::impl_default::add_pbo_mapping(rvutils::pbo::pbofile& pbo)
     }
 
     m_pbos[pbo.path().lexically_normal().string()] = pbo;
-    std::filesystem::path prefix(*prefix_optional);
+    // Backslashes are path separators in prefix and entry names
+    auto separators_normalized = [](std::string str) -> std::string
+    {
+        std::replace(str.begin(), str.end(), '\\', '/');
+        auto start = str.find_first_not_of('/');
+        return start == std::string::npos ? std::string() : str.substr(start);
+    };
+    std::filesystem::path prefix(separators_normalized(*prefix_optional));
 
 
     // We need to register all files with the virtual pathing
     for (auto& file_desc : pbo.files())
     {
         // Construct file path
-        auto file_path = (prefix / file_desc.name).lexically_normal();
+        auto file_path = (prefix / separators_normalized(file_desc.name)).lexically_normal();
         auto path_iter = file_path.begin();
 
         // Navigate to last available virtual file node from root node
@@ -349,14 +356,30 @@ std::string sqf::fileio::impl_default::read_file(sqf::runtime::fileio::pathinfo 
                 log(logmessage::fileio::PBOHasNoPrefixAttribute(physical.lexically_normal().string()));
                 return {};
             }
-            auto prefix = prefix_optional.value();
-            auto pbo_path = info.virtual_;
+            // Compare with '/' as the only separator and without leading separators:
+            // info.virtual_ is "/<prefix>/<entry>", prefix and entry names may use either separator.
+            auto separators_normalized = [](std::string str) -> std::string
+            {
+                std::replace(str.begin(), str.end(), '\\', '/');
+                auto start = str.find_first_not_of('/');
+                return start == std::string::npos ? std::string() : str.substr(start);
+            };
+            auto prefix = separators_normalized(prefix_optional.value());
+            auto pbo_path = separators_normalized(info.virtual_);
 
             if (pbo_path.length() > prefix.length() + 1)
             {
                 pbo_path = pbo_path.substr(prefix.length() + 1);
             }
-            std::transform(pbo_path.begin(), pbo_path.end(), pbo_path.begin(), [](char c) -> char { return c == '/' ? '\\' : c; });
+            // The entry is stored under the name it was packed with
+            for (auto& file_desc : res->second.files())
+            {
+                if (separators_normalized(file_desc.name) == pbo_path)
+                {
+                    pbo_path = file_desc.name;
+                    break;
+                }
+            }
 
             rvutils::pbo::pbofile::reader reader;
             if (res->second.read(pbo_path, reader))
